@@ -262,6 +262,10 @@ def from_element(el, **inherited_attrib):
         for f in dataclasses.fields(data_type)
         if attrs.get(_attr_name(f.name), "").strip()
     }
+    # values outside 0..1 mean 0 and 1; products of opacities rely on that
+    for name in ("opacity", "fill_opacity", "stroke_opacity"):
+        if name in args:
+            args[name] = _clamp(args[name])
     return data_type(**args)
 
 
@@ -1589,8 +1593,8 @@ def _inherit_copy(attrib, child, attr_name):
 def _inherit_multiply(attrib, child, attr_name):
     if attr_name not in attrib and attr_name not in child.attrib:
         return
-    value = float(attrib.get(attr_name, 1.0))
-    value *= float(child.attrib.get(attr_name, 1.0))
+    value = _clamp(float(attrib.get(attr_name, 1.0)))
+    value *= _clamp(float(child.attrib.get(attr_name, 1.0)))
     child.attrib[attr_name] = ntos(value)
 
 
